@@ -431,8 +431,10 @@ def run(ck, F):
     for r in (r08_1, r08_1b, r08_2, r08_3, r08_3b, r08_3c, r08_4, r08_5, r08_6):
         ck.run_rule(r)
     # shared clauses: the buffering bound rests on the receive-side accounting and on the right limit being wired
-    for r in (c02.r02_5, c02.r02_6, c02.r02_7):
+    for r in (c02.r02_5, c02.r02_6, c02.r02_7, c02.r02_4):
         ck.run_rule(r)
+    import c03
+    ck.run_rule(c03.r03_2b)    # (= second half of R08.4) the peer's Hello configuration is validated before use
 
 
 if __name__ == "__main__":
